@@ -181,6 +181,10 @@ def run(prog, rep):
         for cls, sv in (("InflowDrivenDSM", None), ("StockDrivenDSM", "manual"), ("StockDrivenDSM", "lapack")):
             for h in ("CPC", "CPDC"):
                 jobs.append(("history", dict(fx, **({"solver": sv} if sv else {})), cls, h))
+    # parameters edited in place and handed over again as the same objects
+    for dist in ("NormalLifetime", "WeibullLifetime"):
+        for cls, sv in (("InflowDrivenDSM", None), ("StockDrivenDSM", "manual")):
+            jobs.append(("history", dict(n_t=3, labels=("a",), dist=dist, over="all", n_pts=1, inflow_at="middle", **({"solver": sv} if sv else {})), cls, "ACIC"))
     for dist in ("NormalLifetime", "FixedLifetime"):
         for which in ("sf", "pdf"):
             jobs.append(("setting-failure", dict(n_t=3, labels=(), dist=dist, over="number", read=which)))
